@@ -1,16 +1,116 @@
 import Drv.Json
 import Spec.Py
+import Spec.Render
 namespace Drv.Render
-open Lean Model.Py
+open Lean Model.Py Model.Render
 
 /-- strings travel as arrays of code points (no dependence on JSON escaping of astral / control characters) -/
-def getChars (j : Json) (k : String) : List Char := (getNatList j k).map Char.ofNat
+def charsOf (j : Json) : List Char :=
+  match j with
+  | .arr a => a.toList.filterMap (fun x => match x.getNat? with | .ok n => some (Char.ofNat n) | _ => none)
+  | .str s => s.toList
+  | _ => []
+def getChars (j : Json) (k : String) : List Char := charsOf (getObj j k)
+def getOptChars (j : Json) (k : String) : Option (List Char) :=
+  match getObj j k with
+  | .null => none
+  | v => some (charsOf v)
 def charsJ (l : List Char) : Json := nats (l.map Char.toNat)
+def getOptBool (j : Json) (k : String) : Option Bool := getBool j k
 
 /-- printability oracle: the harness lists the non-printable non-ASCII code points (per `str.isprintable`) -/
 def isPOf (j : Json) : Char → Bool :=
   let np := getNatList j "nonprintable"
   fun c => !(np.contains c.toNat)
+
+instance : Inhabited PyAst := ⟨.name []⟩
+
+partial def astOfJson (j : Json) : PyAst :=
+  match getStrD j "t" with
+  | "str" => .str (getChars j "s")
+  | "sq" => .sq (getChars j "s")
+  | "name" => .name (getChars j "n")
+  | "call" => .call (getChars j "fn") ⟨[], [' '], [], getBoolD j "trail"⟩ ((getArr j "items").map fun x => (getOptChars x "k", astOfJson (getObj x "v")))
+  | "list" => .list ((getArr j "items").map fun x => (none, astOfJson x))
+  | _ => .name []
+
+def getOptAst (j : Json) (k : String) : Option PyAst :=
+  match getObj j k with
+  | .null => none
+  | v => some (astOfJson v)
+
+def kwOf (j : Json) (k : String) : Kw := (getArr j k).map fun x => (getChars x "k", astOfJson (getObj x "v"))
+def strsOf (j : Json) (k : String) : List Str := (getArr j k).map charsOf
+
+def genNameOf (j : Json) (k : String) : GenName :=
+  let g := getObj j k
+  match getStrD g "g" with
+  | "plain" => .plain (getChars g "s")
+  | "conv" => .conv (getChars g "s")
+  | _ => .none
+
+def colOf (j : Json) : Col :=
+  { name := getChars j "name", type := astOfJson (getObj j "type"), sdefault := getOptAst j "sdefault",
+    sdPositional := getBoolD j "sdPositional", autoinc := getOptAst j "autoinc", nullable := getOptBool j "nullable",
+    system := getBoolD j "system", comment := getOptChars j "comment", kwargs := kwOf j "kwargs" }
+
+def consOf (j : Json) : Cons :=
+  match getStrD j "c" with
+  | "pk" => .pk (genNameOf j "name") (strsOf j "cols")
+  | "fk" => .fk (genNameOf j "name") (strsOf j "cols") (strsOf j "refcols") (kwOf j "opts")
+  | "uq" => .uq (genNameOf j "name") (strsOf j "cols") (getOptAst j "deferrable") (getOptAst j "initially") (kwOf j "kwargs")
+  | _ => .ck (genNameOf j "name") (getChars j "sqltext")
+
+def optOptAst (j : Json) (k : String) : Option (Option PyAst) :=
+  -- {"set": false} | {"set": true, "v": null | ast}
+  let o := getObj j k
+  if getBoolD o "set" then some (getOptAst o "v") else none
+
+def optOptChars (j : Json) (k : String) : Option (Option Str) :=
+  let o := getObj j k
+  if getBoolD o "set" then some (getOptChars o "v") else none
+
+def idxElemOf (j : Json) : IdxElem :=
+  match getObj j "col" with
+  | .null => .expr (astOfJson (getObj j "expr"))
+  | v => .col (charsOf v)
+
+def opOf (j : Json) : Option Op :=
+  let table := getChars j "table"
+  let schema := getOptChars j "schema"
+  match getStrD j "kind" with
+  | "create_table" => some (.createTable table schema ((getArr j "cols").map colOf) ((getArr j "cons").map consOf)
+      (getOptChars j "comment") (kwOf j "kws") (getOptBool j "if_not_exists"))
+  | "drop_table" => some (.dropTable table schema (getOptBool j "if_exists"))
+  | "add_column" => some (.addColumn table schema (colOf (getObj j "col")))
+  | "drop_column" => some (.dropColumn table schema (getChars j "column"))
+  | "alter_column" => some (.alterColumn
+      { table := table, column := getChars j "column", schema := schema, existingType := getOptAst j "existing_type",
+        serverDefault := optOptAst j "server_default", newName := getOptChars j "new_column_name",
+        type_ := getOptAst j "type_", nullable := getOptBool j "nullable", comment := optOptChars j "comment",
+        existingComment := getOptChars j "existing_comment", existingNullable := getOptBool j "existing_nullable",
+        autoinc := getOptAst j "autoincrement", existingServerDefault := getOptAst j "existing_server_default" })
+  | "create_index" => some (.createIndex (genNameOf j "name") table schema ((getArr j "elems").map idxElemOf)
+      (getBoolD j "unique") (kwOf j "kws") (getOptBool j "if_not_exists"))
+  | "drop_index" => some (.dropIndex (genNameOf j "name") table schema (kwOf j "kws") (getOptBool j "if_exists"))
+  | "create_unique" => some (.createUnique (genNameOf j "name") table schema (strsOf j "cols")
+      (getOptAst j "deferrable") (getOptAst j "initially") (kwOf j "kws"))
+  | "create_fk" => some (.createFK (genNameOf j "name") table (getChars j "referent") (strsOf j "lcols") (strsOf j "rcols")
+      { sourceSchema := getOptAst j "source_schema", referentSchema := getOptAst j "referent_schema",
+        onupdate := getOptAst j "onupdate", ondelete := getOptAst j "ondelete", initially := getOptAst j "initially",
+        deferrable := getOptAst j "deferrable", useAlter := getOptAst j "use_alter", match_ := getOptAst j "match" })
+  | "drop_constraint" => some (.dropConstraint (genNameOf j "name") table schema (getOptChars j "type_"))
+  | "create_table_comment" => some (.createTableComment table (getOptChars j "comment") (getOptChars j "existing_comment") schema)
+  | "drop_table_comment" => some (.dropTableComment table (getOptChars j "existing_comment") schema)
+  | _ => none
+
+def topOf (j : Json) : Option Top :=
+  match getStrD j "top" with
+  | "single" => (opOf (getObj j "o")).map .single
+  | "modify" => ((getArr j "ops").mapM opOf).map (.modify (getChars j "table") (getOptChars j "schema"))
+  | _ => none
+
+def ctxOf (j : Json) : Ctx := { batch := false, opPrefix := S "op.", saPrefix := S "sa.", isP := isPOf j }
 
 def handlePy (op : String) (j : Json) : Option Json :=
   match op with
@@ -23,6 +123,36 @@ def handlePy (op : String) (j : Json) : Option Json :=
   | "py.naive" => some (obj [("text", charsJ (naiveQuote (getChars j "s")))])
   | _ => none
 
-def handle (op : String) (j : Json) : Option Json := handlePy op j
+def handleRender (op : String) (j : Json) : Option Json :=
+  match op with
+  | "render.text" =>
+    match topOf (getObj j "case") with
+    | none => some (errJ "bad-op")
+    | some t =>
+      let c := ctxOf j
+      let lines := renderTop c (getBoolD j "asBatch") t
+      let asts := lineAsts lines
+      some (obj [("text", charsJ (renderText c (getBoolD j "asBatch") t)),
+                 ("wf", Json.bool (asts.all (wf false))),
+                 ("plain", Json.bool (asts.all (wf true))),
+                 ("selfparse", Json.bool (Spec.Render.selfParseOk c.isP asts))])
+  | "render.spec" =>
+    match topOf (getObj j "case") with
+    | none => some (errJ "bad-op")
+    | some t =>
+      let c := ctxOf j
+      let asts := lineAsts (renderTop c (getBoolD j "asBatch") t)
+      let r := Spec.Render.textDenotes c.isP (getChars j "impl") asts
+      some (obj [("holds", Json.bool r)])
+  | "ast.parse" =>
+    match parse (getChars j "text") with
+    | some e => some (obj [("ok", charsJ (pp (isPOf j) e))])
+    | none => some (obj [("none", Json.bool true)])
+  | _ => none
+
+def handle (op : String) (j : Json) : Option Json :=
+  match handlePy op j with
+  | some r => some r
+  | none => handleRender op j
 
 end Drv.Render
